@@ -70,6 +70,15 @@ impl SecondaryTransaction {
     ) -> StorageResult<Self> {
         #[cfg(feature = "verif")]
         crate::verif::point("txn.start", &[table.table_id() as u64, update as u64]).await;
+        // Take the delete lock before pinning the snapshot. A compaction of this table holds the
+        // same lock until its swap is committed; a snapshot pinned while waiting for the lock
+        // would still list the row-sets the compaction removes, and the delete vectors written
+        // for them would be attached to row-sets that are no longer live (the delete is lost).
+        let delete_lock = if update {
+            Some(table.lock_for_deletion().await)
+        } else {
+            None
+        };
         // pin a snapshot at version manager
         let pin_version = table.version.pin();
         #[cfg(feature = "verif")]
@@ -85,11 +94,7 @@ impl SecondaryTransaction {
             table: table.clone(),
             version: table.version.clone(),
             snapshot: pin_version.snapshot.clone(),
-            delete_lock: if update {
-                Some(table.lock_for_deletion().await)
-            } else {
-                None
-            },
+            delete_lock,
             to_be_committed_rowsets: vec![],
             read_only,
             total_size: 0,
